@@ -24,7 +24,7 @@ Local Open Scope N_scope.
 
 (* ---- after the fix of hwloc_bitmap_compare_first's last line this flag is
         [true]; on the unfixed tree it is [false].  See Properties_C03.v. ---- *)
-Definition compare_first_last_line_fixed : bool := false.
+Definition compare_first_last_line_fixed : bool := true.
 
 Definition BPL : N := 64.                       (* HWLOC_BITS_PER_LONG *)
 Definition FULL : N := N.ones 64.               (* HWLOC_SUBBITMAP_FULL *)
